@@ -98,7 +98,9 @@ R1 = {
     "C09": [
         M("algo/Pow.tla", "algo/Pow_W4WIN2E2.cfg", workers=8), M("algo/Pow.tla", "algo/Pow_W4WIN4E2.cfg", workers=8),
         M("algo/Pow.tla", "algo/Pow_W2WIN2E3.cfg"), M("algo/Pow.tla", "algo/Pow_W4WIN2E1_2bases.cfg", workers=8),
-        M("algo/Pow.tla", "algo/Pow_W6WIN3E2.cfg", tiers=T, workers=12, timeout=3000),
+        M("algo/Pow.tla", "algo/Pow_W6WIN3E2.cfg", workers=12),
+        M("algo/Pow.tla", "algo/Pow_W8WIN4E1.cfg", tiers=T, workers=12), M("algo/Pow.tla", "algo/Pow_W4WIN4E3.cfg", tiers=T, workers=12, timeout=3000),
+        M("algo/Pow.tla", "algo/Pow_W4WIN2E1_3bases.cfg", tiers=T, workers=12, timeout=3000),
         M("algo/Lincomb.tla", "algo/Lincomb_W2N2T1.cfg"), M("algo/Lincomb.tla", "algo/Lincomb_W2N2T2.cfg", workers=8),
         M("algo/Lincomb.tla", "algo/Lincomb_W3N2T1.cfg", workers=8),
     ],
